@@ -5,7 +5,7 @@ in every position, back to back and in front of jumps whose operands land on
 instruction starts.  The reference interpreter builds the code object (truth.py mkcode)
 and its own dis is the oracle; the generator only has to produce well-formed bytes."""
 
-MAGS = [0, 1, 255, 256, 257, 65535, 65536, 65537, (1 << 24) - 1, 1 << 24, (1 << 24) + 5, (1 << 31) - 1]
+MAGS = [0, 1, 255, 256, 257, 32767, 32768, 40000, 65535, 65536, 65537, (1 << 24) - 1, 1 << 24, (1 << 24) + 5, (1 << 31) - 1]
 
 
 def pick_ops(tables):
@@ -68,3 +68,25 @@ def make_code(rng, v, tables):
         desc.append("jf:%d" % arg)
     parts.append(nop(v, tables))
     return b"".join(parts), ",".join(desc)
+
+
+BIG_INDEXES = [0, 1, 255, 256, 257, 32767, 32768, 65535, 65536, 65537, 65999]
+
+
+def make_big_table_code(v, tables):
+    """co_code that indexes co_consts and co_names (66 000 entries each) at the operand magnitudes where the
+    decoders change behaviour: 255/256, 32767/32768 and 65535/65536 (EXTENDED_ARG carries the high part)."""
+    om = tables["opmap"]
+    parts = []
+    pop = bytes([om["POP_TOP"], 0]) if v >= (3, 6) else bytes([om["POP_TOP"]])
+    for k in BIG_INDEXES:
+        parts.append(emit(v, tables, om["LOAD_CONST"], k))
+        parts.append(pop)
+        if "LOAD_NAME" in om:
+            parts.append(emit(v, tables, om["LOAD_NAME"], k))
+            parts.append(pop)
+        if "STORE_NAME" in om:
+            parts.append(emit(v, tables, om["LOAD_CONST"], 0))
+            parts.append(emit(v, tables, om["STORE_NAME"], k))
+    parts.append(nop(v, tables))
+    return b"".join(parts)
